@@ -23,7 +23,8 @@ model evaluator over abstract states, nothing of the repository is executed):
  handler-pairing four try items over three handler entries (one shared), the first entry with a padded LEB128: every try
                  range reports the handlers of the entry its handler_off refers to.
  handler-list    for encoded_catch_handler sizes 2, 0 and -2 the reported handlers are the typed pairs in order,
-                 followed by (Ljava/lang/Throwable;, 2*catch_all_addr) exactly when size <= 0.
+                 followed by (Ljava/lang/Throwable;, 2*catch_all_addr) exactly when size <= 0 -- with the catch-all at code
+                 address 0 and at a non-zero address.
 """
 from __future__ import annotations
 
@@ -281,7 +282,8 @@ class CatchHandler(PyModel):
         return self.size
 
     def get_catch_all_addr(self):
-        return self.catch_all_addr
+        # an entry with size > 0 has no catch-all address at all
+        return self.catch_all_addr if self.size <= 0 else None
 
 
 class HandlerList(PyModel):
@@ -520,10 +522,14 @@ def check_end_convention(sink, repo):
     f = d.func("determineException")
     sink.analysed(f)
     sa, ic = Lin.atom("start_addr"), Lin.atom("insn_count")
-    cases = [("typed handlers only (size 2)", 2, 2), ("catch-all only (size 0)", 0, 0), ("typed handlers and catch-all (size -2)", -2, 2)]
-    for label, size, ntyped in cases:
+    # the catch-all address is a concrete code address: 0 (the first instruction is a legal handler) and a non-zero one
+    cases = [("typed handlers only (size 2)", 2, 2, None)]
+    for ca in (0, 6):
+        cases += [("catch-all only (size 0), catch-all at code address %d" % ca, 0, 0, ca),
+                  ("typed handlers and catch-all (size -2), catch-all at code address %d" % ca, -2, 2, ca)]
+    for label, size, ntyped, ca in cases:
         hs = [Handler(7 + k, Lin.atom("handler%d_addr" % k)) for k in range(ntyped)]
-        ch = CatchHandler(101, size, hs, Lin.atom("catch_all_addr"))
+        ch = CatchHandler(101, size, hs, ca)
         method = EncMethod(CodeModel([TryItem(sa, ic, 1)], HandlerList([ch])))
         it = Interp(repo, lenient=LENIENT)
         try:
@@ -542,7 +548,7 @@ def check_end_convention(sink, repo):
                    "(the convention get_exception's call site uses)" % (z[1],), node=f.node, detail="end = %s (inclusive last byte)" % (z[1],))
         want = [("Ltype%d;" % (7 + k), Lin.atom("handler%d_addr" % k) * 2) for k in range(ntyped)]
         if size <= 0:
-            want.append(("Ljava/lang/Throwable;", Lin.atom("catch_all_addr") * 2))
+            want.append(("Ljava/lang/Throwable;", Lin.of(ca * 2)))
         got = []
         for h in z[2:]:
             try:
@@ -780,7 +786,7 @@ def run(ctx):
     ctx.floor("orderings", 26)
     ctx.floor("first_match_cases", 52)
     ctx.floor("call_sites", 1)
-    ctx.floor("try_items", 3)
+    ctx.floor("try_items", 5)
     ctx.floor("paired_tries", 4)
     ctx.floor("blocks_queried", 3)
     ctx.floor("blocks_end_to_end", 3)
